@@ -54,9 +54,9 @@ Qed.
 
 Section Server.
 Variable decode : list N -> option msg.
-Variable method_kind : list N -> N.
-Variable req_ok : list N -> bool.
-Variable service : list N -> list N -> option sres.
+Variable method_kind : N -> list N -> N.
+Variable req_ok : N -> list N -> bool.
+Variable service : N -> list N -> list N -> option sres.
 Notation dispatch := (dispatch method_kind req_ok service).
 Notation body_phase := (body_phase decode method_kind req_ok service).
 Notation descriptor_ready := (descriptor_ready decode method_kind req_ok service).
@@ -106,12 +106,12 @@ Proof.
   - assert (Hans : answers ms (m_id m)).
     { exists m. split; [exact Hin|]. split; [reflexivity|]. unfold is_request. rewrite Et. reflexivity. }
     unfold handle_request in H.
-    destruct (method_kind (m_name m) =? 3); [inversion H; subst; cbn; rewrite app_nil_r; exact HK|].
-    destruct (method_kind (m_name m) =? 0).
+    destruct (method_kind (svc r) (m_name m) =? 3); [inversion H; subst; cbn; rewrite app_nil_r; exact HK|].
+    destruct (method_kind (svc r) (m_name m) =? 0).
     + destruct (send_msg _ _ _ _) as [[r1 e1] b1] eqn:E. inversion H; subst.
       eapply send_msg_K in E; [| |exact HK]; [|intros _; exact Hans].
       destruct E as (R1 & _ & _ & K1). rewrite R1. exact K1.
-    + destruct (negb (req_ok (m_buf m))); [inversion H; subst; cbn; rewrite app_nil_r; exact HK|].
+    + destruct (negb (req_ok (svc r) (m_buf m))); [inversion H; subst; cbn; rewrite app_nil_r; exact HK|].
       destruct (supersede cl ok r (m_id m)) as [r1 evs1] eqn:E1.
       eapply supersede_K in E1; [|exact HK]. destruct E1 as [K1 Hsub].
       set (r2 := set_server r1 (nreq r1 + 1) ((m_id m, nreq r) :: requests r1) (cancelled r1)) in *.
@@ -119,7 +119,7 @@ Proof.
       { destruct K1 as [A B]. split; [|exact B]. intros id q [Hi|Hi].
         - inversion Hi; subst. exact Hans.
         - eapply A. exact Hi. }
-      destruct (service (m_name m) (m_buf m)) as [res|].
+      destruct (service (svc r) (m_name m) (m_buf m)) as [res|].
       * destruct (request_complete _ _ _ _ _) as [r3 evs3] eqn:E3. inversion H; subst.
         eapply request_complete_K in E3; [|exact K2].
         rewrite sends_app. unfold sends at 2. cbn [flat_map app]. fold (sends evs3).
@@ -132,14 +132,14 @@ Proof.
       assert (Hans : answers ms (m_id m)).
       { exists m. split; [exact Hin|]. split; [reflexivity|]. unfold is_request. rewrite Es. apply orb_true_r. }
       unfold handle_stream_request in H.
-      destruct (method_kind (m_name m) =? 3); [inversion H; subst; cbn; rewrite app_nil_r; exact HK|].
-      destruct (method_kind (m_name m) =? 0).
+      destruct (method_kind (svc r) (m_name m) =? 3); [inversion H; subst; cbn; rewrite app_nil_r; exact HK|].
+      destruct (method_kind (svc r) (m_name m) =? 0).
       * destruct (send_msg _ _ _ _) as [[r1 e1] b1] eqn:E. inversion H; subst.
         eapply send_msg_K in E; [| |exact HK]; [|intros _; exact Hans].
         destruct E as (R1 & _ & _ & K1). rewrite R1. exact K1.
-      * destruct (negb (method_kind (m_name m) =? 2));
+      * destruct (negb (method_kind (svc r) (m_name m) =? 2));
           [inversion H; subst; cbn; rewrite app_nil_r; exact HK|].
-        destruct (negb (req_ok (m_buf m))); inversion H; subst; cbn; rewrite app_nil_r; exact HK.
+        destruct (negb (req_ok (svc r) (m_buf m))); inversion H; subst; cbn; rewrite app_nil_r; exact HK.
 Qed.
 
 Lemma call_method_K cl ok st nm rq r r' evs sn ms :
@@ -202,7 +202,8 @@ Qed.
 Lemma run_K ops : forall f r f' r' evs tr,
   KT r tr -> run f r ops = (f', r', evs) -> KT r' (tr ++ evs).
 Proof.
-  exact (run_P decode method_kind req_ok service KT KT_frame KT_dispatch KT_call KT_complete ops).
+  refine (run_P decode method_kind req_ok service KT KT_frame KT_dispatch KT_call KT_complete _ ops).
+  intros r tr k H. exact H.
 Qed.
 
 Lemma run_replies r0 ops f r tr :
